@@ -315,8 +315,8 @@ class DequeGen:
         """zip iterator with the SAME deque on both sides (`zit_new o=k o2=k`): the library then works on
         one object through both pointers — add inserts two elements (…, w, v, …), remove takes the yielded
         element and its successor, replace leaves the second value.
-        Excluded (see corpus/deque/defect_zip_alias_add_swallows_refusal.ops): an aliased zit_add whose
-        *second* add_at has to grow must not meet a refusal — the library ignores that status."""
+        Since repair D13 a refused growth inside the second add_at is all-or-nothing as well
+        (corpus/deque/regress_D13_zip_alias_add_refused.ops), so fail= / fault enumeration is allowed here."""
         ops.append(f"zit_new o={slot} o2={slot}")
         pos = 0
         if reject and rng.random() < 0.5:
@@ -348,13 +348,14 @@ class DequeGen:
                     if reject and rng.random() < 0.3:
                         ops.append("zit_remove")
                 elif k == "add":
-                    if pos < n and not fault and not d3_excluded(pos, n) and not d3_excluded(pos, n + 1):
+                    ex = d3_risky_under_fault if fault else d3_excluded
+                    if pos < n and not ex(pos, n) and not ex(pos, n + 1):
                         v, w = pick_value(rng), pick_value(rng)
                         cap1 = s.cap * 2 if s.grows() else s.cap          # growth test of zip_iter_add itself
                         second_grows = (n + 1 == cap1)                    # the second add_at grows on its own
                         fl, refused = "", False
-                        if allow_fail and s.grows() and not second_grows and rng.random() < 0.4:
-                            fl, refused = " fail=1", True                 # refused before anything happened: atomic
+                        if allow_fail and (s.grows() or second_grows) and rng.random() < 0.4:
+                            fl, refused = " fail=1", True     # first allocator call refused: all-or-nothing (D13)
                         if not refused:
                             s.cap = cap1 * 2 if second_grows else cap1
                             s.items.insert(pos, v)
@@ -537,6 +538,9 @@ class DequeGen:
                     out.append(pre + [o, "add_last 5", "get_at 0", "destroy"])
                 out.append(pre + ["remove_first", "trim", "add_last 5", "destroy"])
                 out.append(pre + ["it_new", "it_next", "it_next", "it_next", "it_next", "it_add 9", "destroy"])
+                if cap >= 4 and f == 0:   # same deque, ONE free slot: the second add_at has to grow by itself (D13)
+                    out.append(self.layout(cap, f, cap - 1) + ["zit_new o=0 o2=0"] + ["zit_next"] * (cap // 2) +
+                               ["zit_add 7 8", "zit_next", "get_at 0", "add_last 5", "destroy"])
                 if cap >= 4:      # same deque on both sides, full: the only allocation is zip_iter_add's own growth test
                     out.append(pre + ["zit_new o=0 o2=0"] + ["zit_next"] * (cap // 2 + 1) + ["zit_add 7 8", "zit_next", "get_at 0", "destroy"])
                 pre2 = self.layout(cap, 0, cap, slot=1, base=50)
